@@ -161,13 +161,37 @@ func genC10(seed uint64, thorough bool) c10case {
 			}
 			cs.plan = append(cs.plan, shell())
 		default:
+			// a walk over the device's states: after the user name it asks for the password (or, now
+			// and then, for the user name again: "unknown user"); after a rejected password it either
+			// starts a new round at the user name or re-asks the password on its own — so a credential
+			// may be re-asked with or without a prompt of the other kind in between (U,P,P,U,P; U,U,P,U)
 			cs.plan = append(cs.plan, sim.LoginStage{Kind: sim.LoginUser, Text: motd() + uPrompt()})
-			for i := 0; ; i++ {
-				cs.plan = append(cs.plan, sim.LoginStage{Kind: sim.LoginPass, Text: pPrompt()})
-				if i >= cs.rejects {
+			left := cs.rejects
+			if r.Chance(1, 5) {
+				left++
+			}
+			atUser := true
+			for len(cs.plan) < 9 {
+				if atUser {
+					if left > 0 && r.Chance(1, 6) {
+						left--
+						cs.plan = append(cs.plan, sim.LoginStage{Kind: sim.LoginUser, Text: "% Unknown user" + nl + uPrompt()})
+						continue
+					}
+					cs.plan = append(cs.plan, sim.LoginStage{Kind: sim.LoginPass, Text: pPrompt()})
+					atUser = false
+					continue
+				}
+				if left == 0 {
 					break
 				}
-				cs.plan = append(cs.plan, sim.LoginStage{Kind: sim.LoginUser, Text: reject() + uPrompt()})
+				left--
+				if r.Chance(2, 5) {
+					cs.plan = append(cs.plan, sim.LoginStage{Kind: sim.LoginPass, Text: reject() + pPrompt()})
+				} else {
+					cs.plan = append(cs.plan, sim.LoginStage{Kind: sim.LoginUser, Text: reject() + uPrompt()})
+					atUser = true
+				}
 			}
 			cs.plan = append(cs.plan, shell())
 		}
@@ -210,6 +234,9 @@ func genC10(seed uint64, thorough bool) c10case {
 					if r.Chance(1, 3) {
 						cs.plan = append(cs.plan, sim.LoginStage{Kind: sim.LoginErr, Text: "Permission denied, please try again." + nl + pPrompt()})
 						break
+					}
+					if r.Chance(1, 8) { // the client program falls back to the key: passphrase between two password prompts
+						cs.plan = append(cs.plan, sim.LoginStage{Kind: sim.LoginPhrase, Text: phPrompt()})
 					}
 					cs.plan = append(cs.plan, sim.LoginStage{Kind: sim.LoginPass, Text: pPrompt()})
 				}
@@ -284,6 +311,16 @@ func c10canonical() []c10case {
 		mk(false, seg, sim.LoginStage{Kind: sim.LoginUser, Text: "login:"}, sim.LoginStage{Kind: sim.LoginPass, Text: "Password:"},
 			sim.LoginStage{Kind: sim.LoginUser, Text: "Login incorrect\n\nlogin:"}, sim.LoginStage{Kind: sim.LoginPass, Text: "Password:"},
 			sim.LoginStage{Kind: sim.LoginUser, Text: "Login incorrect\n\nlogin:"}, sim.LoginStage{Kind: sim.LoginPass, Text: "Password:"}, shell)
+		// the bound is per open, whatever comes in between: U,P,P,U,P / U,U,P,U / F,W,W,W / W,F,W,F,W
+		U := func(t string) sim.LoginStage { return sim.LoginStage{Kind: sim.LoginUser, Text: t} }
+		W := func(t string) sim.LoginStage { return sim.LoginStage{Kind: sim.LoginPass, Text: t} }
+		F := func() sim.LoginStage { return sim.LoginStage{Kind: sim.LoginPhrase, Text: "Enter passphrase for key '/x':"} }
+		mk(false, seg, U("Username:"), W("Password:"), W("% Bad passwords\n\nPassword:"), U("Login incorrect\n\nUsername:"), W("Password:"), shell)
+		mk(false, seg, U("login:"), U("% Unknown user\nlogin:"), W("Password:"), U("Login incorrect\n\nlogin:"), W("Password:"), shell)
+		mk(false, seg, U("login: "), W("Password: "), W("Password: "), U("login: "), shell)
+		mk(true, seg, F(), W("Password:"), W("Password:"), W("Password:"), shell)
+		mk(true, seg, W("Password:"), F(), W("Password:"), F(), W("Password:"), shell)
+		mk(true, seg, F(), F(), W("Password:"), F(), shell)
 		// second attempt admitted
 		mk(true, seg, sim.LoginStage{Kind: sim.LoginPass, Text: "Password:"}, sim.LoginStage{Kind: sim.LoginPass, Text: "Password:"}, shell)
 		// silence
@@ -474,10 +511,16 @@ func runC10(c *ctx) {
 	}
 	c10check(c, c10canonical())
 	n := c.n(1600, 40000)
+	if c.scale > 1 && c10hasOracle(res) {
+		n = 0
+	}
 	for done := 0; done < n; {
 		k := n - done
 		if k > 4000 {
 			k = 4000
+		}
+		if c.scale > 1 && k > 400 {
+			k = 400 // failing-input search: small batches, stop at the first oracle finding
 		}
 		cases := make([]c10case, k)
 		for i := range cases {
@@ -485,6 +528,10 @@ func runC10(c *ctx) {
 		}
 		c10check(c, cases)
 		done += k
+		if c.scale > 1 && c10hasOracle(res) {
+			res.Note("failing-input search stopped after %d cases: oracle finding in hand", done)
+			break
+		}
 	}
 }
 
@@ -529,6 +576,22 @@ func c10ask(c *ctx, lines []string) []string {
 	return out
 }
 
+func c10max(a, b int) int {
+	if a > b {
+		return a
+	}
+	return b
+}
+
+func c10hasOracle(res *vlib.Result) bool {
+	for _, f := range res.Findings {
+		if f.Kind == "oracle" {
+			return true
+		}
+	}
+	return false
+}
+
 type c10finding struct{ kind, detail, sig string }
 
 // c10constsOff: the extracted limits differ from the property's (obligation already broken)
@@ -570,6 +633,46 @@ func c10judge(cs c10case, o c10obs, ans string) (dom bool, fs []c10finding, nont
 			add("correspondence", "first-prompt", "first GetPrompt after Open: %q err %s, model %s; request %s", o.prompt, o.promptErr, mFound, o.request)
 		}
 	}
+	// ---- the bound, unconditionally (whatever the dialogue grammar says about the rest): no
+	// credential reaches the device more than twice in one Open, and a dialogue in which the device
+	// showed a third prompt for a credential ends in an auth error with the transport closed
+	{
+		names := map[string]string{sim.LoginUser: "username", sim.LoginPass: "password", sim.LoginPhrase: "passphrase"}
+		creds := map[string]string{sim.LoginUser: cs.user, sim.LoginPass: cs.pass, sim.LoginPhrase: cs.phrase}
+		distinct := cs.user != cs.pass && cs.user != cs.phrase && cs.pass != cs.phrase
+		for _, k := range []string{sim.LoginUser, sim.LoginPass, sim.LoginPhrase} {
+			atPrompt, byContent := 0, 0
+			for _, l := range o.lines {
+				if l.Kind == k {
+					atPrompt++
+				}
+				if distinct && l.Line == creds[k] {
+					byContent++
+				}
+			}
+			// by content when the three credentials are distinguishable; by the state the device was in
+			// only for in-domain dialogues (out of domain, e.g. a banner line that really matches the
+			// user-name pattern, the client may legitimately type another credential at this prompt)
+			if byContent > 2 || (atPrompt > 2 && (dom || cs.canonical) && !cs.malformed) {
+				add("oracle", "credential-typed-more-than-twice:"+names[k], "in one Open the device received the %s %d times (%d times at its %s prompt); dialogue %v, log %v", names[k], c10max(byContent, atPrompt), atPrompt, k, o.kinds, o.lines)
+			}
+			shown := 0
+			for _, kk := range o.kinds {
+				if kk == k {
+					shown++
+				}
+			}
+			// judged whenever the client and the device agreed on what every prompt was (each line the
+			// device got was the credential its state expects), or the dialogue is well formed as read
+			allOK := true
+			for _, l := range o.lines {
+				allOK = allOK && l.OK
+			}
+			if shown >= 3 && !cs.malformed && (allOK || dom || cs.canonical) && (o.outcome != "auth" || o.closeCalls < 1) {
+				add("oracle", "third-prompt-not-auth:"+names[k], "the device showed its %s prompt %d times in one Open (dialogue %v) but Open returned %s with %d transport Close calls; the property demands an auth error and a closed transport", names[k], shown, o.kinds, o.outcome, o.closeCalls)
+			}
+		}
+	}
 	if !dom && !cs.canonical {
 		return
 	}
@@ -586,19 +689,14 @@ func c10judge(cs c10case, o c10obs, ans string) (dom bool, fs []c10finding, nont
 	if o.outcome != want {
 		add("oracle", "outcome:"+o.outcome+"-want-"+want, "dialogue %v (%s): Open returned error class %s, the property demands %s", o.kinds, map[bool]string{true: "ssh", false: "telnet"}[cs.ssh], o.outcome, want)
 	}
-	cnt := map[string]int{}
 	var got []string
 	for _, l := range o.lines {
-		cnt[l.Kind]++
 		got = append(got, c10letter[l.Kind]+":"+vlib.Hex([]byte(l.Line)))
 		switch l.Kind {
 		case sim.LoginUser, sim.LoginPass, sim.LoginPhrase:
 			wantCred := map[string]string{sim.LoginUser: cs.user, sim.LoginPass: cs.pass, sim.LoginPhrase: cs.phrase}[l.Kind]
 			if l.Line != wantCred {
 				add("oracle", "device-line:"+l.Kind, "at its %s prompt the device received %q, expected %q (log %v)", l.Kind, l.Line, wantCred, o.lines)
-			}
-			if cnt[l.Kind] > 2 {
-				add("oracle", "attempts:"+l.Kind, "the %s prompt was answered %d times in one Open (log %v)", l.Kind, cnt[l.Kind], o.lines)
 			}
 		default:
 			add("oracle", "device-line:"+l.Kind, "the device received the line %q while in state %s during Open", l.Line, l.Kind)
@@ -610,7 +708,7 @@ func c10judge(cs c10case, o c10obs, ans string) (dom bool, fs []c10finding, nont
 	}
 	lineFindings := 0
 	for _, x := range fs {
-		if strings.HasPrefix(x.sig, "device-line:") || strings.HasPrefix(x.sig, "attempts:") {
+		if strings.HasPrefix(x.sig, "device-line:") || strings.HasPrefix(x.sig, "credential-typed-more-than-twice:") {
 			lineFindings++
 		}
 	}
